@@ -451,3 +451,59 @@ impl Family for DeepFamily {
         30000
     }
 }
+
+
+/// a control-flow body with very many statements (per-file budgets and caches of the wrapper):
+/// `sizes` statements of 2 shapes inside 1..2 levels of each nesting kind
+pub struct WideFamily {
+    pub label: String,
+    pub g: Arc<Grammar>,
+    pub sizes: Vec<usize>,
+    pub cfgs: Vec<Cfg>,
+    pub f: ProgFn,
+}
+
+impl WideFamily {
+    fn decode(&self, idx: u64) -> (Vec<GTok>, Cfg) {
+        let nc = self.cfgs.len() as u64;
+        let cfg = self.cfgs[(idx % nc) as usize];
+        let mut r = idx / nc;
+        let kind = (r % NEST_KINDS as u64) as usize;
+        r /= NEST_KINDS as u64;
+        let k = (r % 2) as usize + 1;
+        r /= 2;
+        let shape = (r % 2) as usize;
+        r /= 2;
+        let n = self.sizes[r as usize % self.sizes.len()];
+        let mut core: Vec<GTok> = vec![];
+        for i in 0..n {
+            if shape == 0 {
+                core.extend([gt("a", M_S), gt(";", 0)]);
+            } else {
+                core.extend([gt(&format!("x{}", i % 7), M_S), gt(":=", 0), gt("f", 0), gt("(", 0), gt("a", 0), gt(",", 0), gt("b", 0), gt(")", 0), gt(";", 0)]);
+            }
+        }
+        (nest(&core, k, kind), cfg)
+    }
+}
+
+impl Family for WideFamily {
+    fn name(&self) -> String {
+        format!("{}:wide(statements{:?},shapes=2,depth<=2,kinds={})x{}cfg", self.label, self.sizes, NEST_KINDS, self.cfgs.len())
+    }
+    fn len(&self) -> u64 {
+        (self.sizes.len() * 2 * 2 * NEST_KINDS * self.cfgs.len()) as u64
+    }
+    fn run(&self, idx: u64, ctx: &mut Ctx) {
+        let (toks, cfg) = self.decode(idx);
+        (self.f)(&self.g, &toks, &cfg, ctx);
+    }
+    fn describe(&self, idx: u64) -> Value {
+        let (toks, cfg) = self.decode(idx);
+        let text = layout::render(&toks, &layout::base_gaps(&toks, Base::L1));
+        json!({"input_head": text.chars().take(200).collect::<String>(), "tokens": toks.len(), "cfg": cfg})
+    }
+    fn horizon_ms(&self) -> u64 {
+        120_000
+    }
+}
